@@ -32,6 +32,9 @@ type Outcome struct {
 	Steps      int64            // logical steps (API calls + I/O events)
 	Packets    int64            // TS packets transported
 	Log        *Log
+	// Harness is set when the run could not be judged because of trouble in the machinery itself
+	// (never a verdict: the check exits 2).
+	Harness string
 }
 
 func NewOutcome() *Outcome {
